@@ -720,6 +720,19 @@ def r7_promotion(ctx, prog):
                     norm(st.value.func))
             if d in F64:
                 conv.append(st)
+        # value = np.float64(value) if isinstance(value, np.float32) else value
+        if isinstance(st, ast.Assign) and isinstance(st.value, ast.IfExp) \
+                and isinstance(st.value.body, ast.Call) \
+                and len(st.value.body.args) == 1 \
+                and norm(st.targets[0]) == norm(st.value.body.args[0]) \
+                and norm(st.value.orelse) == norm(st.targets[0]):
+            c_ = st.value.body
+            d = prog.dotted(mod, c_.func) if isinstance(
+                c_.func, ast.Attribute) else (
+                    prog.resolve_name(mod, norm(c_.func)) or norm(c_.func))
+            if d in F64:
+                st._ifexp_test = st.value.test
+                conv.append(st)
     ctx.floor("C14-R7", len(conv), 1, "promotions to double in the table "
               "reader")
     WIDE = {"numpy.float32", "numpy.floating", "numpy.number",
@@ -728,8 +741,11 @@ def r7_promotion(ctx, prog):
         guards = [i for i in ast.walk(fi.node) if isinstance(i, ast.If)
                   and any(x is st for b in i.body for x in ast.walk(b))]
         typed = []
-        for i in guards:
-            for c in ast.walk(i.test):
+        tests_ = [i.test for i in guards]
+        if getattr(st, "_ifexp_test", None) is not None:
+            tests_.append(st._ifexp_test)
+        for i_test in tests_:
+            for c in ast.walk(i_test):
                 if isinstance(c, ast.Call) and norm(c.func) == "isinstance" \
                         and len(c.args) == 2 \
                         and norm(c.args[0]) == norm(st.targets[0]):
